@@ -217,8 +217,42 @@ def run(ctx):
     from ctemplates import check_constant_spelling
     rep.extra["constant_spelling_cases"] = check_constant_spelling(ctx, db, rep, "D4-CONST-SPELLING")
 
+    d7(ctx, db, rep)
+
     if ctx.tier == "thorough":
         d5(ctx, rep)
+
+
+def d7(ctx, db, rep):
+    """D7: the integer typedefs the generated C starts with have the width and signedness their names say, in each
+    preprocessor branch and whatever the signedness of plain `char` (the emitted function bodies compute on these types).
+    The emitted prelude is compiled (not run) under three dialect settings; width and sign are read off constant
+    expressions that clang folds: sizeof(T) and ((T)-1 < 0)."""
+    f = db.func("orc_target_c_get_typedefs", "orcprogram-c")
+    rep.saw(f)
+    lits = [n for n in f.walk() if n.k == "StringLiteral" and n.get("str")]
+    if not lits:
+        raise AnalysisBroken("orc_target_c_get_typedefs: no string literal")
+    prelude = max((n.get("str") for n in lits), key=len)
+    names = [("orc_int8", 1, 1), ("orc_int16", 2, 1), ("orc_int32", 4, 1), ("orc_int64", 8, 1),
+             ("orc_uint8", 1, 0), ("orc_uint16", 2, 0), ("orc_uint32", 4, 0), ("orc_uint64", 8, 0)]
+    wit = "enum {\n" + "".join("  w_%s_size = sizeof(%s), w_%s_neg = ((%s)-1 < 0),\n" % (t, t, t, t) for t, _, _ in names) + "  w_end = 0 };\n"
+    n7 = 0
+    for label, flags in (("C99 or later", "-std=gnu99"), ("pre-C99 compiler", "-std=gnu89"), ("pre-C99 compiler, plain char unsigned (ARM, PowerPC ABIs)", "-std=gnu89 -funsigned-char")):
+        sdb = ctx.snippet_db("prelude%d" % n7, prelude + "\n" + wit, flags=flags)
+        n7 += 1
+        bad = []
+        for t, size, neg in names:
+            try:
+                gs, gn = sdb.enum("w_%s_size" % t), sdb.enum("w_%s_neg" % t)
+            except AnalysisBroken:
+                bad.append("%s is not defined" % t)
+                continue
+            if gs != size or gn != neg:
+                bad.append("%s is %d bytes and %s" % (t, gs, "signed" if gn else "unsigned"))
+        rep.check(not bad, "D7-PRELUDE-TYPES", where(f), "dialect:%s" % flags,
+                  "with a %s the 8 emitted integer typedefs have the width and signedness of their names" % label,
+                  "the type prelude of the generated C is wrong with a %s: %s -- every signed/unsigned operation on that element type then differs from emulation" % (label, "; ".join(bad)))
 
 
 def d5(ctx, rep):
